@@ -115,6 +115,17 @@ Proof.
   destruct P as [a t], Q as [b u]. cbn [fst snd]. intros -> ->. apply pair_term_G.
 Qed.
 
+(* the two-pairing product on subgroup elements *)
+Lemma multi_pairing_2 (s1 s2 q1 q2 : F) :
+  multi_pairing_is_one [((s1, t1_0), (q1, t2_0)); ((s2, t1_0), (q2, t2_0))]
+  = feqb (fadd (fmul s1 q1) (fmul s2 q2)) f0.
+Proof.
+  unfold multi_pairing_is_one.
+  assert (E : map pair_term [((s1, t1_0), (q1, t2_0)); ((s2, t1_0), (q2, t2_0))] = [fmul s1 q1; fmul s2 q2]).
+  { cbn [map]. f_equal; [apply pair_term_G|]. f_equal. apply pair_term_G. }
+  rewrite E. cbn [fsum fold_right]. f_equal. ring.
+Qed.
+
 Lemma smul1_G k a : smul1 k (a, t1_0) = (fmul k a, t1_0).
 Proof. unfold smul1. cbn. now rewrite t1_smul_0. Qed.
 Lemma smul2_G k a : smul2 k (a, t2_0) = (fmul k a, t2_0).
